@@ -3,6 +3,7 @@
 CONSTANTS
   N = 2
   NI = 2
+  NK = 1
   MaxClock = 1
   Retention = 0
   T = 1
@@ -18,6 +19,7 @@ CONSTANTS
   GateNodes = {1}
   InboxCap = 1
   VersionTest = FALSE
+  KeyTest = TRUE
   MaxDel = 0
   ObsoleteTimeout = 1
   ConsumeNet = FALSE
